@@ -80,7 +80,7 @@ def global_writes(tree, modname):
     classes = {st.name for st in tree.body if isinstance(st, ast.ClassDef)}
     out = []
 
-    def scan_fn(fn, qual):
+    def scan_fn(fn, qual, self_aliases=frozenset()):
         params = {a.arg for a in fn.args.args + fn.args.kwonlyargs + fn.args.posonlyargs}
         if fn.args.vararg:
             params.add(fn.args.vararg.arg)
@@ -162,6 +162,24 @@ def global_writes(tree, modname):
                     base = base.value
                 if isinstance(base, ast.Name) and (is_outliving(base.id) or base.id in classes or base.id == "cls"):
                     out.append(f"{modname}.{qual}: mutates {ast.unparse(n.func.value)} via .{n.func.attr}")
+            # writes THROUGH an instance attribute that was bound to a module-level object (self.x = GLOBAL ... self.x[k] = v)
+            if self_aliases:
+                cands = []
+                if isinstance(n, ast.Assign):
+                    cands = [t_ for t_ in n.targets if isinstance(t_, (ast.Subscript, ast.Attribute))]
+                elif isinstance(n, (ast.AugAssign, ast.AnnAssign)) and isinstance(n.target, (ast.Subscript, ast.Attribute)):
+                    cands = [n.target]
+                elif isinstance(n, ast.Delete):
+                    cands = [t_ for t_ in n.targets if isinstance(t_, (ast.Subscript, ast.Attribute))]
+                elif isinstance(n, ast.Call) and isinstance(n.func, ast.Attribute) and n.func.attr in MUTATORS:
+                    cands = [ast.Attribute(value=n.func.value, attr="__mutated__", ctx=ast.Load())]
+                for t_ in cands:
+                    inner = t_.value          # the object written into
+                    chain = inner
+                    while isinstance(chain, (ast.Subscript, ast.Attribute)) and not (isinstance(chain, ast.Attribute) and isinstance(chain.value, ast.Name) and chain.value.id == "self"):
+                        chain = chain.value
+                    if isinstance(chain, ast.Attribute) and isinstance(chain.value, ast.Name) and chain.value.id == "self" and chain.attr in self_aliases:
+                        out.append(f"{modname}.{qual}: writes into self.{chain.attr} (bound to a module-level object)")
             # calls that change process-wide interpreter state
             if isinstance(n, ast.Call) and ast.unparse(n.func) in PROCESS_GLOBAL_CALLS:
                 out.append(f"{modname}.{qual}: calls {ast.unparse(n.func)}")
@@ -174,12 +192,20 @@ def global_writes(tree, modname):
         if isinstance(st, ast.FunctionDef):
             scan_fn(st, st.name)
         elif isinstance(st, ast.ClassDef):
+            # instance attributes bound somewhere in the class to a module-level object (not a class, not a function)
+            funcs = {x.name for x in tree.body if isinstance(x, ast.FunctionDef)}
+            sal = set()
+            for n in ast.walk(st):
+                if isinstance(n, ast.Assign) and isinstance(n.value, ast.Name) and n.value.id in glob and n.value.id not in classes and n.value.id not in funcs:
+                    for t_ in n.targets:
+                        if isinstance(t_, ast.Attribute) and isinstance(t_.value, ast.Name) and t_.value.id == "self":
+                            sal.add(t_.attr)
             for m in st.body:
                 if isinstance(m, ast.FunctionDef):
-                    scan_fn(m, st.name + "." + m.name)
+                    scan_fn(m, st.name + "." + m.name, frozenset(sal))
                     for inner in ast.walk(m):
                         if isinstance(inner, ast.FunctionDef) and inner is not m:
-                            scan_fn(inner, st.name + "." + m.name + "." + inner.name)
+                            scan_fn(inner, st.name + "." + m.name + "." + inner.name, frozenset(sal))
     return sorted(set(out))
 
 
